@@ -158,15 +158,32 @@ def run(chk, facts):
         un = [f for f in syn.find_fn("union", mod="check::name", impl_of="Name") if "Union < Name >" in (f.get("impl_trait") or "") or "Union<Name>" in (f.get("impl_trait") or "").replace(" ", "")]
         if len(un) != 1:
             raise AnchorError(f"{len(un)} impl Union<Name> for Name")
-        # compared after inlining named intermediates and with the set union written as S (parentheses dropped):
-        #   names: if S.iter().any(is_null) && S.len() > 1 { S.iter().filter(|n| !n.is_null()).map(as_nullable).collect() } else { S }
-        from .common import inline_lets
-        s = src(inline_lets(un[0]["body"], typed=True), -30).replace(" ", "")     # (negative start depth: render deep chains in full)
-        S = "self.names.union(&name.names).cloned().collect()"
-        t = s.replace(S, "S").replace("(", "").replace(")", "")
-        ok = "names:ifS.iter.anyTrueName::is_null&&S.len>1{S.iter.filter|n|!n.is_null.mapTrueName::as_nullable.collect}else{S}" in t
+        # the function is folded over small unions (rules/smalleval.py): None next to other members is dropped and the others become
+        # nullable; None alone and unions without None are returned as they are; the interchangeable flag is the disjunction
+        from .smalleval import SmallEval, NoEval
+        local = {f["name"]: f for f in syn.fns if f["mod"] == un[0]["mod"] and f.get("impl_of") is None and f.get("body")}
+        T = lambda n_, nl=False: ("T", n_, nl)
+        NONE = ("T", "None", False)
+        fz = {"is_null": lambda t: t == NONE, "as_nullable": lambda t: ("T", t[1], True) if t != NONE else t}
+        ev_u = SmallEval(local_fns=local, funcs={"TrueName::is_null": fz["is_null"], "TrueName::as_nullable": fz["as_nullable"]},
+                         methods={"is_null": fz["is_null"], "as_nullable": fz["as_nullable"]})
+        cases = [([NONE], [T("A")], [T("A", True)]), ([T("A")], [T("B")], [T("A"), T("B")]), ([NONE], [], [NONE]), ([NONE, T("A")], [T("B")], [T("A", True), T("B", True)]),
+                 ([T("A", True)], [NONE], [T("A", True)]), ([], [T("A")], [T("A")]), ([NONE], [NONE], [NONE])]
+        ok, why_u = True, None
+        try:
+            for l_, r_, want_ in cases:
+                for il, ir in ((False, False), (True, False), (False, True)):
+                    v = ev_u.call(un[0], [{"names": ("list", l_), "is_interchangeable": il}, {"names": ("list", r_), "is_interchangeable": ir}]) \
+                        if len(un[0]["sig"]["inputs"]) == 2 and all(i_.get("pat", {}).get("k") == "pident" for i_ in un[0]["sig"]["inputs"]) else \
+                        ev_u.ev(un[0]["body"], {"self": {"names": ("list", l_), "is_interchangeable": il}, "name": {"names": ("list", r_), "is_interchangeable": ir}})
+                    got_ = v.get("names") if isinstance(v, dict) else None
+                    if not (isinstance(got_, tuple) and got_[0] == "list" and sorted(got_[1]) == sorted(want_) and v.get("is_interchangeable") == (il or ir)):
+                        ok = False
+                        why_u = why_u or f"{[x[1] + ('?' if x[2] else '') for x in l_]} | {[x[1] + ('?' if x[2] else '') for x in r_]} gives {[x[1] + ('?' if x[2] else '') for x in (got_[1] if isinstance(got_, tuple) else [])]}"
+        except NoEval as ex:
+            ok, why_u = False, f"could not be evaluated ({ex})"
         chk.ob("R-C06-3", "union-with-None", ok, "a union that contains None (and something else) becomes the other members made nullable" if ok else
-               "Name::union no longer turns `T | None` into `T?`", facts.loc_of(un[0]))
+               f"Name::union no longer turns `T | None` into `T?`: {why_u}", facts.loc_of(un[0]))
     except AnchorError as e:
         chk.anchor_fail("R-C06-3", e)
 
